@@ -1,4 +1,5 @@
 #include <yaclib/fault/detail/fiber/thread.hpp>
+#include <yaclib/fault/inject.hpp>
 #include <yaclib/log.hpp>
 
 #include <cstdio>
@@ -32,6 +33,7 @@ void Thread::join() {
     _impl->SetJoiningFiber(fault::Scheduler::Current());
     fault::Scheduler::Suspend();
   }
+  YACLIB_VERIF_SYNC(9, _impl, static_cast<unsigned long long>(_impl->GetId()));
   AfterJoinOrDetach();
 }
 
